@@ -26,7 +26,8 @@ def main():
             sys.exit(check_kani.replay_file(a.replay))
         from mirsym import check_trees
         sys.exit(check_trees.replay_file(a.replay))
-    from mirsym import check_kani, check_trees, common
+    from mirsym import check_kani, check_trees, check_seg, common
+    SEG_PROPS = {'C03', 'C16', 'C12', 'C15', 'C10'}
     import time
     t0 = time.time()
     rdir = os.path.join(common.evidence_dir(), 'replay')
@@ -35,13 +36,15 @@ def main():
             if f.startswith(a.pid + '-'):
                 os.unlink(os.path.join(rdir, f))
     parts = []
-    engines = os.environ.get('VERIF_ENGINES', 'tree,kani').split(',')      # debugging aid; registered commands use both
+    engines = os.environ.get('VERIF_ENGINES', 'tree,seg,kani').split(',')      # debugging aid; registered commands use both
     if 'tree' not in engines:
         TREE_PROPS.clear()
     if 'kani' not in engines:
         check_kani.PLAN.clear()
     if a.pid in TREE_PROPS:
         parts.append(('tree', check_trees.run(a.pid, a.tier, seed, a.procs)))
+    if a.pid in SEG_PROPS and 'seg' in engines:
+        parts.append(('seg', check_seg.run(a.pid, a.tier, seed, a.procs)))
     if a.pid in check_kani.PLAN:
         k = check_kani.run(a.pid, a.tier, seed)
         if k is not None:
@@ -57,6 +60,25 @@ def main():
         if kind == 'tree':
             ev = r['ev']
     kani = dict(parts).get('kani')
+    seg = dict(parts).get('seg')
+    if ev is None and seg is not None:
+        ev = {'property_id': a.pid, 'tier': a.tier, 'seed': seed, 'level': 'model_checking',
+              'coverage': {'states': max(1, seg['paths']), 'transitions': max(1, seg['obligations']), 'traces_validated_against_impl': seg['confirmed'],
+                           'samples': seg['samples'] or [{'note': 'no feasible path'}],
+                           'explanation': 'states = feasible symbolic paths of the real segment-tree code (MIR executor); transitions = obligations discharged by z3',
+                           'engine': 'mirsym: symbolic execution of rustc MIR + z3 (QF_BV), MIR regenerated from /repo working tree'},
+              'assumptions': ['std leaves modelled from their contract (Vec, slices, ranges, Option, trailing_zeros, ilog2)',
+                              'instantiation SegExpTree<i32, u8, {id:u8, exp:u8}>'],
+              'violations': 0}
+    if seg is not None:
+        ev['coverage'].update(seg['coverage'])
+        ev['coverage'].setdefault('inconclusive', [])
+        ev['coverage']['inconclusive'] = list(ev['coverage']['inconclusive']) + seg['inconclusive'][:10]
+        if 'tree' in dict(parts):
+            ev['coverage']['states'] += seg['paths']
+            ev['coverage']['transitions'] += seg['obligations']
+            ev['coverage']['samples'] = ev['coverage']['samples'] + seg['samples'][:2]
+        ev['violations'] = ev.get('violations', 0) + seg['violations']
     if ev is None:
         ev = {'property_id': a.pid, 'tier': a.tier, 'seed': seed, 'level': 'model_checking',
               'coverage': {'states': max(1, kani['harnesses']), 'transitions': max(1, kani['checks']), 'traces_validated_against_impl': kani['confirmed'],
@@ -69,7 +91,7 @@ def main():
         ev['coverage'].update(kani['coverage'])
         ev['coverage'].setdefault('inconclusive', [])
         ev['coverage']['inconclusive'] = list(ev['coverage']['inconclusive']) + kani['inconclusive'][:10]
-        if 'tree' in dict(parts):
+        if 'tree' in dict(parts) or 'seg' in dict(parts):
             ev['coverage']['samples'] = ev['coverage']['samples'] + kani['samples'][:3]
             ev['coverage']['transitions'] += kani['checks']
             ev['coverage']['states'] += kani['harnesses']
